@@ -10,16 +10,7 @@ from lib import gram
 
 ID = 'C16'
 TECHNIQUE = 'runtime monitor: exception-class oracle per failure category (by construction), swallowed-failure monitor (M1 on_raise), crash/exit-status watch'
-RULE = ('(a) programs built to fail in exactly one listed way: a fault expression/statement (undefined variable, undefined '
-        'function in call/method/pipe spelling, missing key/index read, pop of an empty list, element-adding mutator at the '
-        '10000 cap, compound assignment to an undefined name or missing key/index, op budget) placed in every evaluated '
-        'position of nested expression/statement contexts (top level, after/before other lines, lambda bodies driven by '
-        'map/filter/reduce/sorted and host callbacks, ast_names bodies); lexical errors (illegal characters, unterminated '
-        'strings, lone CR) spliced into valid programs at every token gap; syntax errors by truncation at every token boundary, '
-        'bracket removal and stray tokens; reserved words at every atom position. (b) arbitrary text: random Unicode from all '
-        'planes incl. controls/NUL/surrogates/RTL marks, latin-1 byte salad, 10^5-char lines, 10^4-deep nesting, 10^4-long operator '
-        'chains, ill-typed random programs, through parse, list_names and eval. Non-trivial = the call raised and its class was '
-        'judged; distinct = distinct (entry point, source text).')
+RULE = '(a) programs built to fail in exactly one listed way: a fault (undefined variable, undefined function in call/method/pipe spelling, missing key/index read, pop of an empty list, element-adding mutator at the 10000 cap, compound assignment to an undefined name or missing key/index, op budget) in every evaluated position of nested expression/statement contexts (top level, after/before other lines, lambda bodies driven by map/filter/reduce/sorted and host callbacks, ast_names bodies), one eval in five preceded by poisoning calls that bound exactly the names the fault leaves undefined and then failed; a faulting lambda in every argument position of every builtin under the swallowed-failure monitor; the op budget on small programs and on deep/long programs (150-900 levels) on plain and caching parsers; lexical errors (illegal characters incl. unnamed code points and lone surrogates, unterminated strings, lone CR) spliced into valid programs at every token gap; syntax errors by truncation at every token boundary, bracket removal and stray tokens; reserved words at every atom position. (b) arbitrary text (random Unicode from all planes, latin-1 byte salad, splices and mutants of programs, 10^5-char lines, 10^4-deep nesting), judged with the reference lexer/parser where they say the text is invalid, through parse, list_names and eval. Non-trivial = the call raised and its class was judged; distinct = distinct (entry point, source text).'
 ASSUMPTIONS = ['category is known by construction: the context evaluates the fault before anything else that could fail',
                'RecursionError and MemoryError are ordinary Exceptions (acceptable for (b))',
                'a worker process killed by a signal other than the harness watchdog counts as an interpreter crash']
